@@ -84,6 +84,7 @@ static thrd_ret_t THREAD_CALL_CONV parallel_thread_run(void *rid_arg)
 			msg_allocator_on_gvt(current_gvt);
 			stats_on_gvt(current_gvt);
 		}
+		RSV_YIELD(RSV_SITE_MAIN_LOOP);
 	}
 
 	worker_thread_fini();
